@@ -300,13 +300,16 @@ structure OvState where
   j : Nat            -- current out-box
   cur : Rat          -- `current_coord`
   first : Bool       -- `first_time_for_this_out_box`
-  out : Nat → Rat
+  out : Array Rat
 
 /-- `epsilon` (overlap_interpolate.inl:83) -/
 def ovEpsilon (outC inC : Nat → Rat) (nOut nIn : Nat) : Rat :=
   min ((outC nOut - outC 0) / ((nOut * 10000 : Nat) : Int)) ((inC nIn - inC 0) / ((nIn * 10000 : Nat) : Int))
 
-def setAt (f : Nat → Rat) (j : Nat) (v : Rat) : Nat → Rat := fun k => if k = j then v else f k
+/-- `out[j]` -/
+def getAt (a : Array Rat) (j : Nat) : Rat := a.getD j 0
+/-- `out[j] = v` -/
+def setAt (a : Array Rat) (j : Nat) (v : Rat) : Array Rat := a.setIfInBounds j v
 
 /-- one iteration of the `while (true)` loop (overlap_interpolate.inl:92-130); `Sum.inr` = the loop is left
     (`true`: by `return`, all out-boxes done; `false`: by `break`, all in-boxes done) -/
@@ -317,9 +320,9 @@ def ovStep (outC inC inV : Nat → Rat) (nOut nIn : Nat) (eps : Rat) (onlyAdd : 
   let overlap := newCoord - st.cur
   let out' :=
     if !onlyAdd && st.first then
-      (if overlap > eps then setAt st.out st.j (inV st.i * overlap) else setAt st.out st.j (st.out st.j * 0))
+      (if overlap > eps then setAt st.out st.j (inV st.i * overlap) else setAt st.out st.j (getAt st.out st.j * 0))
     else
-      (if overlap > eps then setAt st.out st.j (st.out st.j + inV st.i * overlap) else st.out)
+      (if overlap > eps then setAt st.out st.j (getAt st.out st.j + inV st.i * overlap) else st.out)
   let first' := if !onlyAdd && st.first then false else st.first
   if inBeyondOut then
     if st.j + 1 = nOut then .inr ({ st with j := st.j + 1, cur := newCoord, first := first', out := out' }, true)
@@ -343,45 +346,40 @@ def ovSkipIn (outC inC : Nat → Rat) (nIn : Nat) : Nat → Nat → Option Nat
     if inC (i + 1) ≤ outC 0 then (if i + 1 = nIn then none else ovSkipIn outC inC nIn fuel (i + 1)) else some i
 
 /-- skip (and zero) out-boxes left of the input range (overlap_interpolate.inl:66-74); `none` = `return` -/
-def ovSkipOut (outC : Nat → Rat) (x : Rat) (nOut : Nat) (zero : Bool) : Nat → Nat → (Nat → Rat) → (Nat → Rat) × Option Nat
+def ovSkipOut (outC : Nat → Rat) (x : Rat) (nOut : Nat) (zero : Bool) : Nat → Nat → Array Rat → Array Rat × Option Nat
   | 0, j, out => (out, some j)
   | fuel + 1, j, out =>
     if outC (j + 1) ≤ x then
-      let out' := if zero then setAt out j (out j * 0) else out
+      let out' := if zero then setAt out j (getAt out j * 0) else out
       if j + 1 = nOut then (out', none) else ovSkipOut outC x nOut zero fuel (j + 1) out'
     else (out, some j)
 
-/-- result of a run (a structure, so that an evaluation runs the loop once) -/
-structure OvOut where
-  out : Nat → Rat
+/-- "fill rest of output with 0" (overlap_interpolate.inl:134-149): boxes `j+1 … nOut-1` -/
+def ovZeroRest (nOut : Nat) : Nat → Nat → Array Rat → Array Rat
+  | 0, _, out => out
+  | fuel + 1, j, out => if j + 1 < nOut then ovZeroRest nOut fuel (j + 1) (setAt out (j + 1) (getAt out (j + 1) * 0)) else out
 
-/-- `overlap_interpolate(out_begin, …, only_add_to_output, assign_rest_with_zeroes)` -/
-def overlapInterpolateRun (outC inC inV : Nat → Rat) (nOut nIn : Nat) (out0 : Nat → Rat)
-    (onlyAdd assignRest : Bool) : OvOut :=
-  if nOut = 0 ∨ nIn = 0 then ⟨out0⟩
+/-- `overlap_interpolate(out_begin, …, only_add_to_output, assign_rest_with_zeroes)`; `out0` has `nOut` entries -/
+def overlapInterpolate (outC inC inV : Nat → Rat) (nOut nIn : Nat) (out0 : Array Rat)
+    (onlyAdd assignRest : Bool) : Array Rat :=
+  if nOut = 0 ∨ nIn = 0 then out0
   else
     match ovSkipIn outC inC nIn nIn 0 with
-    | none => ⟨out0⟩
+    | none => out0
     | some i0 =>
       match ovSkipOut outC (inC i0) nOut (!onlyAdd && assignRest) nOut 0 out0 with
-      | (out1, none) => ⟨out1⟩
+      | (out1, none) => out1
       | (out1, some j0) =>
         let eps := ovEpsilon outC inC nOut nIn
         let st0 : OvState := ⟨i0, j0, max (inC i0) (outC j0), true, out1⟩
         let (st, returned) := ovLoop outC inC inV nOut nIn eps onlyAdd ((nIn - i0) + (nOut - j0)) st0
-        if returned then ⟨st.out⟩
-        else if !onlyAdd && assignRest then
-          -- "fill rest of output with 0": boxes after the current one
-          ⟨fun k => if st.j < k ∧ k < nOut then st.out k * 0 else st.out k⟩
-        else ⟨st.out⟩
-
-def overlapInterpolate (outC inC inV : Nat → Rat) (nOut nIn : Nat) (out0 : Nat → Rat)
-    (onlyAdd assignRest : Bool) : Nat → Rat :=
-  (overlapInterpolateRun outC inC inV nOut nIn out0 onlyAdd assignRest).out
+        if returned then st.out
+        else if !onlyAdd && assignRest then ovZeroRest nOut nOut st.j st.out
+        else st.out
 
 /-- `ArcCorrection::do_arc_correction` on one row: `overlap_interpolate` then `out /= tangential_sampling` -/
-def arcCorrectRow (outC inC inV : Nat → Rat) (nOut nIn : Nat) (sampling : Rat) : Nat → Rat :=
-  fun k => overlapInterpolate outC inC inV nOut nIn (fun _ => 0) false true k / sampling
+def arcCorrectRow (outC inC inV : Nat → Rat) (nOut nIn : Nat) (sampling : Rat) : Array Rat :=
+  (overlapInterpolate outC inC inV nOut nIn (Array.replicate nOut 0) false true).map (· / sampling)
 
 /-! ## detector-based `get_bin` on exact angles (candidates of the nearest-detector rounding) -/
 
